@@ -556,3 +556,10 @@ Qed.
 (* with the raw buffer as capacity (buffer 1 < max borrowed samples 2) the second borrowed connection is fatal *)
 Lemma park_raw_buffer_fatal : park 1 [(false, 1)] (false, 1) = ParkFatalPanic.
 Proof. reflexivity. Qed.
+
+(* ---------- a refused open leaves no service tag ---------- *)
+Lemma refused_open_no_tag : forall k left, open_run open_steps_code k false false = Some left -> left = false.
+Proof.
+  assert (E : open_steps_code = [OCreateTag; OFallible; OFallible; OReleaseTag]) by (vm_compute; reflexivity).
+  rewrite E. intros [|[|k]] left; cbn [open_run andb negb]; intros H; inversion H; reflexivity.
+Qed.
